@@ -252,7 +252,8 @@ impl<A: Actor> OwningAddr<A> {
     /// Stops the actor and returns it.
     pub async fn consume(mut self) -> Result<A> {
         log::trace!("consuming actor");
-        self.addr.stop()?;
+        // if the actor has already stopped the request is rejected, but its value may still be there
+        let _ = self.addr.stop();
         self.join()
             .await
             .ok_or(crate::error::ActorError::AlreadyStopped)
